@@ -1,3 +1,4 @@
+import StepModel.SevLemmas
 import StepModel.AttrNull
 import StepModel.ModeGlue
 /-!
@@ -803,6 +804,161 @@ theorem C15_trailing_old_shape_witness (a : AttrD) :
     lookAheadR 2 .null [Slot.redefining, Slot.redefining, Slot.redefining, Slot.attr a] = .null ∧
     lookAheadR 1 .null [Slot.redefining, Slot.redefining, Slot.redefining, Slot.attr a] = .warning := by
   constructor <;> rfl
+
+/-! ### the same loop with the pre-technical-corrigendum encoding (`useTechCor = false`): every redefining attribute has a `*` -/
+
+/-- a conforming parameter list in that encoding: every attribute reads without complaint, every redefining entry has `*` -/
+inductive CleanPre (s : Bool) : List Slot → List Tok → Prop
+  | nil : CleanPre s [] []
+  | attr {a t es ts} : (attrRead s a t).1 = .null → CleanPre s es ts → CleanPre s (.attr a :: es) (t :: ts)
+  | red {es ts} : CleanPre s es ts → CleanPre s (.redefining :: es) (.star :: ts)
+
+theorem cleanPre_no_tokens {s es} (h : CleanPre s es []) : es = [] := by cases h; rfl
+
+theorem loopReadPre_clean {strict s : Bool} (hs : attrStrict strict = s) (step : Nat) {es ts} (h : CleanPre s es ts) (acc : Sev) :
+    (loopReadPre step strict acc es ts).1 = acc := by
+  induction h generalizing acc with
+  | nil => rfl
+  | @attr a t es ts h1 hc ih =>
+    cases ts with
+    | nil =>
+      have := cleanPre_no_tokens hc; subst this
+      simp only [loopReadPre, hs]; rw [h1, mergeAttr_null_right]; rfl
+    | cons t' ts' =>
+      simp only [loopReadPre, hs]; rw [ih, h1, mergeAttr_null_right]
+  | @red es ts hc ih =>
+    cases ts with
+    | nil => have := cleanPre_no_tokens hc; subst this; rfl
+    | cons t' ts' => simp only [loopReadPre]; exact ih acc
+
+theorem loopReadPre_clean_prefix {strict s : Bool} (hs : attrStrict strict = s) (step : Nat) {es₁ ts₁} (h : CleanPre s es₁ ts₁)
+    (es : List Slot) (t : Tok) (ts : List Tok) (acc : Sev) :
+    (loopReadPre step strict acc (es₁ ++ es) (ts₁ ++ t :: ts)).1 = (loopReadPre step strict acc es (t :: ts)).1 := by
+  induction h generalizing acc with
+  | nil => rfl
+  | @attr a t₀ es₀ ts₀ h1 _ ih =>
+    simp only [List.cons_append, loopReadPre, hs]
+    cases hts : ts₀ ++ t :: ts with
+    | nil => simp at hts
+    | cons x xs => simp only []; rw [← hts, ih, h1, mergeAttr_null_right]
+  | @red es₀ ts₀ _ ih =>
+    simp only [List.cons_append, loopReadPre]
+    cases hts : ts₀ ++ t :: ts with
+    | nil => simp at hts
+    | cons x xs => simp only []; rw [← hts, ih]
+
+/-- a conforming instance in the pre-technical-corrigendum encoding reads clean, in both modes -/
+theorem C15_pretc_conforming {strict s : Bool} (hs : attrStrict strict = s) {es ts} (h : CleanPre s es ts) :
+    (loopReadTC false strict es ts).1 = .null := by
+  simp only [loopReadTC, Bool.false_eq_true, if_false]; exact loopReadPre_clean hs _ h _
+
+/-- … and the decision table holds at every attribute position of such an instance (redeclared positions included: `a` is any
+    attribute descriptor), whatever redefining entries stand before and after it: the instance's severity is what the
+    attribute's own read decided (`C15_attr_*` say what that is for `$` / no value) -/
+theorem C15_pretc_position {strict s : Bool} (hs : attrStrict strict = s) {es₁ ts₁ es₂ ts₂} (a : AttrD) (t : Tok)
+    (h₁ : CleanPre s es₁ ts₁) (h₂ : CleanPre s es₂ ts₂) :
+    (loopReadTC false strict (es₁ ++ Slot.attr a :: es₂) (ts₁ ++ t :: ts₂)).1 = (attrRead s a t).1 := by
+  simp only [loopReadTC, Bool.false_eq_true, if_false]
+  rw [loopReadPre_clean_prefix hs _ h₁]
+  cases ts₂ with
+  | nil =>
+    have := cleanPre_no_tokens h₂; subst this
+    simp only [loopReadPre, hs]; rw [mergeAttr_null_left]; rfl
+  | cons t' ts' =>
+    simp only [loopReadPre, hs]; rw [loopReadPre_clean hs _ h₂, mergeAttr_null_left]
+
+theorem greater_le_left (a b : Sev) : (Sev.greater a b).le a = true := by cases a <;> cases b <;> rfl
+theorem sev_le_trans {a b c : Sev} (h₁ : a.le b = true) (h₂ : b.le c = true) : a.le c = true := by
+  cases a <;> cases b <;> cases c <;> first | rfl | (exact absurd h₁ (by decide)) | (exact absurd h₂ (by decide))
+theorem sev_le_refl (a : Sev) : a.le a = true := by cases a <;> rfl
+theorem mergeAttr_le_left (a b : Sev) : (mergeAttr a b).le a = true := by cases a <;> cases b <;> rfl
+theorem lookAheadR_le (step : Nat) (acc : Sev) (es : List Slot) : (lookAheadR step acc es).le acc = true := by
+  unfold lookAheadR; split
+  · exact greater_le_left _ _
+  · exact sev_le_refl _
+
+/-- the instance's severity only ever gets worse along the loop -/
+theorem loopReadPre_le (step : Nat) (strict : Bool) : ∀ (es : List Slot) (ts : List Tok) (acc : Sev),
+    (loopReadPre step strict acc es ts).1.le acc = true
+  | [], [], acc => sev_le_refl acc
+  | [], _ :: _, acc => greater_le_left _ _
+  | .redefining :: es, [], acc => sev_le_refl acc
+  | .attr _ :: es, [], acc => sev_le_refl acc
+  | .attr a :: es, t :: ts, acc => by
+    cases ts with
+    | nil => simp only [loopReadPre]; exact sev_le_trans (lookAheadR_le _ _ _) (mergeAttr_le_left _ _)
+    | cons t' ts' =>
+      simp only [loopReadPre]
+      exact sev_le_trans (loopReadPre_le step strict es (t' :: ts') _) (mergeAttr_le_left _ _)
+  | .redefining :: es, t :: ts, acc => by
+    cases t with
+    | star =>
+      cases ts with
+      | nil => simp only [loopReadPre]; exact lookAheadR_le _ _ _
+      | cons t' ts' => simp only [loopReadPre]; exact loopReadPre_le step strict es _ _
+    | missing d =>
+      cases d with
+      | false =>
+        cases ts with
+        | nil => simp only [loopReadPre]; exact sev_le_trans (lookAheadR_le _ _ _) (greater_le_left _ _)
+        | cons t' ts' =>
+          simp only [loopReadPre]; exact sev_le_trans (loopReadPre_le step strict es _ _) (greater_le_left _ _)
+      | true =>
+        simp only [loopReadPre]; split
+        · exact greater_le_left _ _
+        · exact sev_le_trans (loopReadPre_le step strict es _ _) (greater_le_left _ _)
+    | lit v sv =>
+      simp only [loopReadPre]; split
+      · exact sev_le_trans (greater_le_left _ _) (greater_le_left _ _)
+      · exact sev_le_trans (loopReadPre_le step strict es _ _) (sev_le_trans (greater_le_left _ _) (greater_le_left _ _))
+
+theorem greater_le_right (a b : Sev) : (Sev.greater a b).le b = true := by cases a <;> cases b <;> rfl
+
+/-- a redefining entry that holds anything but `*` — `$`, nothing, a value —, after a conforming beginning and whatever
+    follows: the instance is at SEVERITY_INCOMPLETE or worse, and the file is turned down (exit 1), in both modes -/
+theorem C15_pretc_redefining_needs_star {strict s : Bool} (hs : attrStrict strict = s) {es₁ ts₁} (h₁ : CleanPre s es₁ ts₁)
+    (t : Tok) (ht : t ≠ .star) (es : List Slot) (ts : List Tok) :
+    let sev := (loopReadTC false strict (es₁ ++ Slot.redefining :: es) (ts₁ ++ t :: ts)).1
+    sev.le .incomplete = true ∧ p21readExit (fileSevFor ⟨sev, false⟩) = 1 := by
+  intro sev
+  have hle : sev.le .incomplete = true := by
+    simp only [sev, loopReadTC, Bool.false_eq_true, if_false]
+    rw [loopReadPre_clean_prefix hs _ h₁]
+    have hn : sevPreTcNoStar = .incomplete := rfl
+    cases t with
+    | star => exact absurd rfl ht
+    | missing d =>
+      cases d with
+      | false =>
+        cases ts with
+        | nil => simp only [loopReadPre, hn]; exact sev_le_trans (lookAheadR_le _ _ _) (greater_le_right _ _)
+        | cons t' ts' =>
+          simp only [loopReadPre, hn]; exact sev_le_trans (loopReadPre_le _ _ es _ _) (greater_le_right _ _)
+      | true =>
+        simp only [loopReadPre, hn]; split
+        · exact greater_le_right .null .incomplete
+        · exact sev_le_trans (loopReadPre_le _ _ es _ _) (greater_le_right _ _)
+    | lit v sv =>
+      simp only [loopReadPre, hn]; split
+      · exact sev_le_trans (greater_le_left (Sev.greater .null .incomplete) sevPreTcGarbage) (greater_le_right .null .incomplete)
+      · exact sev_le_trans (loopReadPre_le _ _ es _ _) (sev_le_trans (greater_le_left _ _) (greater_le_right _ _))
+  refine ⟨hle, ?_⟩
+  generalize sev = x at hle
+  cases x <;> first | rfl | (exact absurd hle (by decide))
+
+/-- what "nothing more is consumed" means: `#1=E(5,$,6)` with the attribute list [a : INTEGER, redefining, b : INTEGER] —
+    the `$` at the redefining entry leaves its delimiter unread, `b` reads an absent value and `6` is left over: `b` ends
+    unset and the instance at SEVERITY_INPUT_ERROR ("No more attributes were expected"); with nothing at all at the
+    redefining entry (`(5,,6)`) the loop stays aligned: `b` = 6, SEVERITY_INCOMPLETE -/
+theorem C15_pretc_dollar_shifts_witness :
+    let a : AttrD := ⟨.integer, false, false, false, false⟩
+    let es := [Slot.attr a, Slot.redefining, Slot.attr a]
+    loopReadTC false true es [Tok.lit (.tok "5") .null, Tok.missing true, Tok.lit (.tok "6") .null]
+      = (.inputError, [.tok "5", .null]) ∧
+    loopReadTC false true es [Tok.lit (.tok "5") .null, Tok.missing false, Tok.lit (.tok "6") .null]
+      = (.incomplete, [.tok "5", .tok "6"]) ∧
+    loopReadTC false true es [Tok.lit (.tok "5") .null, Tok.star, Tok.lit (.tok "6") .null] = (.null, [.tok "5", .tok "6"]) := by
+  decide
 
 /-! ### the mode that reaches the reader is the mode the caller asked for -/
 
